@@ -64,16 +64,26 @@ def _norm(v):
     """an element that was sent with an empty value comes back empty: '' / None / [] are the same thing"""
     if v is None or v == '' or v == b'' or v == []:
         return None
+    if isinstance(v, int):
+        return v                     # (str() of a symbolic int forks once per digit count)
     return str(v)
 
 
-def cmd_equal(a, b):
-    ea = sorted((int(e.tag), _norm(e.value)) for e in a)
-    eb = sorted((int(e.tag), _norm(e.value)) for e in b)
+def cmd_equal(a, b, ds_type_by_meaning=False):
+    """same elements with the same values; ds_type_by_meaning: Command Data Set Type is compared by what it says
+    (0101H = no data set, anything else = data set present) - the library normalises the value on reception"""
+    def val(e):
+        if ds_type_by_meaning and int(e.tag) == 0x00000800:
+            return 'none' if e.value == 0x0101 else 'present'
+        return _norm(e.value)
+    ea = sorted((int(e.tag), val(e)) for e in a)
+    eb = sorted((int(e.tag), val(e)) for e in b)
     return ea == eb
 
 
 MS = [40, 58, 90, 16384]
+FIND = '1.2.840.10008.5.1.4.1.2.2.1'
+MR = '1.2.840.10008.5.1.4.1.1.4'
 
 
 @cond(bounds='C-STORE-RQ with message id symbolic 0..65535 and a data set of 2 symbolic bytes + 0 / 35 / 70 concrete bytes '
@@ -167,6 +177,162 @@ def dispatch(mid: int, with_ds: bool, split: bool) -> bool:
         and PS37_COMMAND_FIELD[type(got).__name__] == int(got.command_set[(0x0000, 0x0100)].value)
     ok = ok and cmd_equal(got.command_set, msg.command_set) and got.data_set == data
     deep(ok and with_ds and split)
+    return ok
+
+
+@cond(bounds='C-STORE-RQ / C-FIND-RQ whose Command Data Set Type is ANY 16-bit value other than 0101H (symbolic; PS3.7 '
+             'E.1: every value but 0101H means a data set follows - peers use 0000H, 0001H, 0102H ...), 2 symbolic data '
+             'bytes + 35 concrete, maximum length 58, every composition of the fragment list (symbolic bit-vector), in '
+             'memory and file-backed', family={'in_file': [0, 1], 'find': [0, 1]}, timeout=300)
+def foreign_dataset_type(mid: int, d: bytes, g: int, dst: int) -> bool:
+    """
+    pre: 0 <= mid <= 65535 and len(d) == 2 and 0 <= g <= 63 and 0 <= dst <= 65535 and dst != 0x0101
+    post: _
+    """
+    data = d + TAIL[:35]
+    if fam('find'):
+        msg = dm.CFindRQMessage()
+        msg.message_id = mid
+        msg.sop_class_uid = FIND
+        msg.priority = 0
+        msg.data_set = data
+    else:
+        msg = store_rq(mid, data)
+    msg.command_set.CommandDataSetType = dst
+    msg.set_length()
+    frags = list(msg.encode(5, 58))
+    n = len(frags)
+    g = pick(g, 0, 63)
+    if n > 7 or g >= (1 << (n - 1)):
+        return True
+    pdus = regroup(frags, g)
+    ae = object.__new__(applicationentity.AE)
+    applicationentity.AEBase.__init__(ae, TS_LIST, 58)
+    accepted = {5: asceprovider.PContextDef(5, pydicom.uid.UID(CT), pydicom.uid.UID(TS_LIST[0]))}
+    dec = fsm.DIMSEDecoder(accepted, frozenset([CT]) if fam('in_file') else frozenset(), ae.get_file)
+    ok = True
+    for i, p in enumerate(pdus):
+        ok = ok and dec.receiving
+        dec.process(p)
+        if i < len(pdus) - 1:
+            ok = ok and dec.receiving
+    ok = ok and not dec.receiving
+    if not ok:
+        return False
+    got = dec.msg
+    ok = type(got) is type(msg) and dec.pc_id == 5 and cmd_equal(got.command_set, msg.command_set, True)
+    if fam('in_file') and not fam('find'):
+        fp = got.data_set
+        ok = ok and fp is not None and not isinstance(fp, bytes)
+        if ok:
+            whole = fp.read()
+            try:
+                meta, off = part10.read_meta(whole)
+            except part10.Part10Error:
+                return False
+            ok = ok and whole[off:] == data
+    else:
+        ok = ok and got.data_set == data
+    deep(ok and n >= 2 and dst == 0x0102)
+    return ok
+
+
+def _seq_message(kind, mid, data):
+    if kind == 'store_file' or kind == 'store_mem':
+        m = store_rq(mid, data)
+        if kind == 'store_mem':
+            m.sop_class_uid = MR
+        return m, (5 if kind == 'store_file' else 9), data
+    if kind == 'find':
+        m = dm.CFindRQMessage()
+        m.message_id = mid
+        m.sop_class_uid = FIND
+        m.priority = 0
+        m.data_set = data
+        m.set_length()
+        return m, 7, data
+    m = dm.CEchoRQMessage()
+    m.message_id = mid
+    m.sop_class_uid = '1.2.840.10008.1.1'
+    m.set_length()
+    return m, 3, None
+
+
+SEQS = [('store_file', 'find'), ('find', 'store_file'), ('store_file', 'store_mem'), ('store_file', 'echo', 'find'),
+        ('store_file', 'store_file'), ('find', 'echo', 'store_mem')]
+
+
+@cond(bounds='2-3 messages in a row on ONE association through the real StateMachine.dt_2 / ar_6 (Sta6 or Sta7): 6 orders of '
+             'file-backed C-STORE-RQ, in-memory C-STORE-RQ, C-FIND-RQ, C-ECHO-RQ; message ids symbolic, 22 '
+             'concrete data bytes each (distinct per message), maximum length 58, each message delivered all in one P-DATA-TF, one fragment per '
+             'PDU, or split after the first / before the last fragment (symbolic selectors); every message must be indicated exactly when its last fragment arrives, with '
+             'its own type, context, command set and data; the application may have closed an earlier file (symbolic)',
+      family={'seq': list(range(len(SEQS))), 'sta7': [0, 1]}, timeout=300)
+def message_sequence(mid: int, g1: int, g2: int, closed: bool) -> bool:
+    """
+    pre: 0 <= mid <= 65000 and 0 <= g1 <= 3 and 0 <= g2 <= 3
+    post: _
+    """
+    from vt import sim
+    kinds_ = SEQS[fam('seq')]
+    ae = object.__new__(applicationentity.AE)
+    applicationentity.AEBase.__init__(ae, TS_LIST, 58)
+    sock = sim.SimSocket()
+    prov = sim.make_provider(sock, frozenset([CT]), ae.get_file)
+    prov.event.clear()
+    ts = pydicom.uid.UID(TS_LIST[1])
+    prov.accepted_contexts = {5: asceprovider.PContextDef(5, pydicom.uid.UID(CT), ts),
+                              9: asceprovider.PContextDef(9, pydicom.uid.UID(MR), ts),
+                              7: asceprovider.PContextDef(7, pydicom.uid.UID(FIND), ts),
+                              3: asceprovider.PContextDef(3, pydicom.uid.UID('1.2.840.10008.1.1'), ts)}
+    sm = prov.state_machine
+    state = fsm.States.STA_7 if fam('sta7') else fsm.States.STA_6
+    sm.current_state = state
+    g1, g2 = pick(g1, 0, 3), pick(g2, 0, 3)
+    log = prov.to_service_user.log
+    ok = True
+    for j, kind in enumerate(kinds_):
+        data = (b'\x10\x00', b'\x20\x00', b'\x30\x00')[j] + TAIL[j:j + 20]
+        msg, cid, data = _seq_message(kind, mid + j, data)
+        frags = list(msg.encode(cid, 58))
+        n = len(frags)
+        g = (g1, g2, g1)[j]
+        full = (1 << (n - 1)) - 1
+        g = (0, full, 1, 1 << (n - 2) if n > 1 else 0)[g]
+        pdus = regroup(frags, g)
+        for i, p in enumerate(pdus):
+            prov.primitive = p
+            sm.action(fsm.Events.EVT_10)
+            ok = ok and sm.current_state == state and not sock.sent
+            ok = ok and len(log) == (j + 1 if i == len(pdus) - 1 else j)
+        if not ok:
+            return False
+        got, got_cid = log[j]
+        ok = type(got) is type(msg) and got_cid == cid and cmd_equal(got.command_set, msg.command_set)
+        if kind == 'store_file':
+            fp = got.data_set
+            ok = ok and fp is not None and not isinstance(fp, bytes)
+            if not ok:
+                return False
+            whole = fp.getvalue()
+            try:
+                meta, off = part10.read_meta(whole)
+            except part10.Part10Error:
+                return False
+            ok = ok and whole[off:] == data and part10.text(meta[(2, 0x10)]) == str(ts)
+            if closed:
+                fp.close()                 # the application is done with the file it was handed
+        else:
+            ok = ok and got.data_set == data
+        if not ok:
+            return False
+    # files handed over earlier were not written to afterwards
+    for j, kind in enumerate(kinds_):
+        if kind == 'store_file' and not closed:
+            whole = log[j][0].data_set.getvalue()
+            meta, off = part10.read_meta(whole)
+            ok = ok and len(whole) == off + 22
+    deep(ok and g1 == 3 and g2 == 1 and closed)
     return ok
 
 
